@@ -178,9 +178,31 @@ def dep_chain_family():
     return out
 
 
+def same_text_family():
+    """C04: the same duration text on a working-time gap (`gaplength 1d` = 8 h of project working time) and on a calendar
+    gap (`gapduration 1d` = 24 h) of one project, in both orders of declaration and on both kinds of edge.  Each project
+    runs in a worker process of its own (tag `fresh-`): whatever the implementation remembers about a text it has read
+    before must not decide how the next one is read."""
+    out = []
+    start = 1736121600
+    for text in ("1d", "2d", "1w"):
+        for order in (0, 1):
+            for onstart in (False, True):
+                a = {"id": "a", "effort": ["3", "h"], "alloc": ["r0"]}
+                kinds = ("glen", "gap") if order == 0 else ("gap", "glen")
+                b = {"id": "b", "effort": ["2", "h"], "alloc": ["r1"], "deps": [{"target": "a", "ref": "a", kinds[0]: text}]}
+                c = {"id": "c", "effort": ["2", "h"], "alloc": ["r2"], "deps": [{"target": "b", "ref": "b", kinds[1]: text}]}
+                if onstart:
+                    c["deps"][0]["onstart"] = True
+                pr = {"start": start, "dur": [6, "w"], "G": 3600, "resources": [{"id": "r0"}, {"id": "r1"}, {"id": "r2"}],
+                      "tasks": [a, b, c]}
+                out.append((f"fresh-sametext-{text}-{order}-{int(onstart)}", pr))
+    return out
+
+
 def run(chk):
     c = CFG[chk.prop]
-    extra = dep_chain_family() if chk.prop == "C04" else ()
+    extra = (dep_chain_family() + same_text_family()) if chk.prop == "C04" else ()
     return SC.run(chk, chk.prop, sorted(set(c["files"])), c["knobs"], c.get("n_quick", 300), c.get("n_thorough", 6000),
                   c["oracles"], c["nontrivial"], c["rule"], classify=c.get("classify"),
                   leanchecker_modules=["Properties." + chk.prop, "Proofs.SchedInv"], extra_asts=extra)
